@@ -8,7 +8,19 @@
      - compared outcome by outcome with the extracted reader + parser model, run on
        the single-chunk stream and on the random chunking of the case      -> DIFF
    and, for canonical C14 cases, the bytes written by the harness' printer are compared
-   with the Coq printer (TransfacPrint.print_file)                          -> DIFF. *)
+   with the Coq printer (TransfacPrint.print_file)                          -> DIFF.
+
+   No verdict fails open (wave 3): a comparison that cannot be made is a DIFF, never a silent OK --
+     a line echoed as `skip` must belong to the io group (carry a `fmt=` token other than transfac);
+     a record outcome without its two to_freq fields                       -> DIFF to_freq-not-observed;
+     a bundled file must say inst=1 (it is an instance of C14.reader_roundtrip: recogniser + extracted
+     wf_file / print_file, records compared with expected_record) or inst=0 (it is declared not to be one:
+     record count, chunking independence and model comparison only; counted by the SPEC histogram);
+     the static fact "parse.rs uses no streaming combinator the model does not handle" is re-evaluated by
+     the extracted TransfacCur.parse_streaming_modelled                     -> DIFF on every case.
+   PROPFAIL is decided by extracted, proved checkers only: check_c15p (C15), check_c14p, check_same_chunkings
+   and check_count (C14); their arguments (expected records of a generated case, `nrec` of a bundled file)
+   come from the input line -- the harness' generator / the corpus are the oracle for what was written. *)
 open Transfac_model
 
 (* ---- conversions ---- *)
@@ -75,7 +87,7 @@ let chunk_pattern (pat : int list) data =
   chunk_with (fun () -> let v = a.(!k mod Array.length a) in incr k; v) data
 
 (* scripted stream (harness EvChunked): events `.`-joined, `Eo` = fill_buf fails, `Ei` = fill_buf is
-   interrupted, <n> = the next n bytes become available (skipped when no byte is left); when the script
+   interrupted, `Ez` = fill_buf returns an empty slice once (transient end of input), <n> = the next n bytes become available (skipped when no byte is left); when the script
    is used up the rest of the data comes as one chunk *)
 let estream_of_script (script : string) (data : byte list) : ev list =
   let rec take k l acc = if k = 0 then (List.rev acc, l) else match l with
@@ -85,6 +97,7 @@ let estream_of_script (script : string) (data : byte list) : ev list =
     | [] -> List.rev (if l = [] then acc else EData l :: acc)
     | "Eo" :: r -> go r l (EFail :: acc)
     | "Ei" :: r -> go r l (EIntr :: acc)
+    | "Ez" :: r -> go r l (EEof :: acc)
     | n :: r ->
         if l = [] then go r l acc
         else let (c, l') = take (max 1 (int_of_string n)) l [] in go r l' (EData c :: acc) in
@@ -338,7 +351,15 @@ let () =
           else if String.length v > 8 && String.sub v 0 8 = "PROPFAIL"
                   && not (String.length !verdict > 8 && String.sub !verdict 0 8 = "PROPFAIL") then verdict := v in
         (try
-          if obs = "skip" then raise Exit;   (* a corpus line of the io group: not ours *)
+          if obs = "skip" then begin
+            (* a corpus line of the io group: not ours -- but only if it says so *)
+            let fmts = List.filter (fun t -> String.length t > 4 && String.sub t 0 4 = "fmt=") (List.tl toks) in
+            if fmts = [] then set_v "DIFF skipped-line-without-fmt-token(no group owns it)"
+            else if List.mem "fmt=transfac" fmts then set_v "DIFF transfac-line-skipped-by-the-harness";
+            raise Exit
+          end;
+          if not parse_streaming_modelled then
+            set_v "DIFF parse.rs-uses-a-streaming-combinator-or-names-Incomplete:not-modelled(GenReader.gen_parse_streaming)";
           let fields = List.map kv (List.tl toks) in
           let ofields = List.map kv (String.split_on_char ' ' obs) in
           let get k = try List.assoc k fields with Not_found -> "" in
@@ -368,6 +389,7 @@ let () =
                     | Some m -> to_freq_bits al (z_of_int c) m in
                   if parse_matrix 'q' f0 <> want 0 then set_v (Printf.sprintf "DIFF to_freq(0.0) outcome=%d" k);
                   if parse_matrix 'q' f5 <> want 0x3f000000 then set_v (Printf.sprintf "DIFF to_freq(0.5) outcome=%d" k)
+              | "R" :: _ -> set_v (Printf.sprintf "DIFF to_freq-not-observed outcome=%d" k)
               | _ -> ()) (split '|' first);
             (* --- property checkers on the implementation's observations --- *)
             if mode <> "c14" then
@@ -375,37 +397,45 @@ let () =
                 if not (check_c15p (nat_of_int post) s) then
                   set_v (Printf.sprintf "PROPFAIL c15 chunking=%d post=%d outcomes=%s" k post (show_seq s))) seqs;
             if mode = "c14" then begin
+              (* the chunking clause: decided by the extracted check_same_chunkings (C14.check_same_chunkings_sound);
+                 a difference in the raw text only (the to_freq fields, which obs does not carry) is a DIFF *)
+              if not (check_same_chunkings seqs) then begin
+                let k = ref 0 in
+                List.iteri (fun j s -> if !k = 0 && first_diff first_seq s O <> None then k := j) seqs;
+                set_v (Printf.sprintf "PROPFAIL c14 chunking-dependent chunking=%d" !k)
+              end;
               List.iteri (fun k r ->
-                if r <> first then set_v (Printf.sprintf "PROPFAIL c14 chunking-dependent chunking=%d" k)) raw;
+                if r <> first then set_v (Printf.sprintf "DIFF c14 chunking-dependent-text(to_freq fields) chunking=%d" k)) raw;
               (match get "recs", get "file" with
                | "", "" -> set_v "DIFF c14-case-without-records"
                | "", _ ->
-                   (* bundled data: every "//" line closes a record, then end of input *)
-                   (match List.rev first_seq with
-                    | BEnd :: rest when List.for_all (function BRec _ -> true | _ -> false) rest ->
-                        let want = int_of_string (get "nrec") in
-                        if List.length rest <> want then
-                          set_v (Printf.sprintf "PROPFAIL c14 records=%d expected=%d" (List.length rest) want)
-                        else begin
-                          (* is the file an instance of C14.reader_roundtrip?  then every record must be
-                             exactly the theorem's expected record *)
-                          let inst = match recognize (string_of_bytes data) with
-                            | Some (vv, crlf, fnl, recs) when wf_file al vv recs && print_file vv crlf fnl recs = data -> Some recs
-                            | _ -> None in
-                          match inst with
-                          | Some recs ->
-                              let expected = List.map (expected_record al) recs in
-                              if not (check_c14p expected (nat_of_int post) first_seq) then begin
-                                let want = List.map (fun r -> BRec (observe_record r)) expected @ (BEnd :: List.init post (fun _ -> BEnd)) in
-                                let at = match first_diff first_seq want O with Some k -> int_of_nat k | None -> -1 in
-                                let what = if at >= 0 && at < List.length first_seq && at < List.length want
-                                  then diff_fields (List.nth first_seq at) (List.nth want at) else "length" in
-                                set_v (Printf.sprintf "PROPFAIL c14 bundled-file outcome=%d differs-from-theorem-expected-records in=%s" at what)
-                              end
-                          | None ->
-                              if get "inst" = "1" then set_v "DIFF bundled file no longer recognised as an instance of reader_roundtrip"
-                        end
-                    | _ -> set_v ("PROPFAIL c14 bundled-file-not-read-completely outcomes=" ^ show_seq first_seq))
+                   (* bundled data: every "//" line closes a record, then end of input (and again for every further
+                      request): decided by the extracted check_count (C14.check_count_sound) *)
+                   let want = int_of_string (get "nrec") in
+                   if not (check_count (nat_of_int want) (nat_of_int post) first_seq) then
+                     set_v (Printf.sprintf "PROPFAIL c14 bundled-file expected=%d records then END outcomes=%s (records=%d)" want
+                              (show_seq first_seq) (List.length (List.filter (function BRec _ -> true | _ -> false) first_seq)))
+                   else begin
+                     (* is the file an instance of C14.reader_roundtrip?  then every record must be
+                        exactly the theorem's expected record *)
+                     let inst = match recognize (string_of_bytes data) with
+                       | Some (vv, crlf, fnl, recs) when wf_file al vv recs && print_file vv crlf fnl recs = data -> Some recs
+                       | _ -> None in
+                     match inst with
+                     | Some recs ->
+                         let expected = List.map (expected_record al) recs in
+                         if not (check_c14p expected (nat_of_int post) first_seq) then begin
+                           let want = List.map (fun r -> BRec (observe_record r)) expected @ (BEnd :: List.init post (fun _ -> BEnd)) in
+                           let at = match first_diff first_seq want O with Some k -> int_of_nat k | None -> -1 in
+                           let what = if at >= 0 && at < List.length first_seq && at < List.length want
+                             then diff_fields (List.nth first_seq at) (List.nth want at) else "length" in
+                           set_v (Printf.sprintf "PROPFAIL c14 bundled-file outcome=%d differs-from-theorem-expected-records in=%s" at what)
+                         end
+                     | None ->
+                         if get "inst" = "1" then set_v "DIFF bundled file no longer recognised as an instance of reader_roundtrip"
+                         else if get "inst" <> "0" then
+                           set_v "DIFF bundled file not recognised as an instance of reader_roundtrip and not declared inst=0:records-not-compared-with-what-is-written"
+                   end
                | recs, _ ->
                    let precs = List.map parse_prec (String.split_on_char ';' recs) in
                    let expected = List.map (fun (p, refs) ->
